@@ -935,6 +935,12 @@ class Connection (EventMixin):
 
       msg_length = self.buf[offset+2] << 8 | self.buf[offset+3]
 
+      if msg_length < 8:
+        # Can't be a valid message, and we can't skip over it either
+        log.warning("Bad OpenFlow message length (%i) on connection %s"
+                    % (msg_length, self))
+        return False # Throw connection away
+
       if buf_len - offset < msg_length: break
 
       new_offset,msg = self.unpackers[ofp_type](self.buf, offset)
